@@ -204,7 +204,8 @@ package server
 //@   loop 1 invariant forall i int :: 0 <= i && i < len(tokens) ==> tokens[i].tokenType <= 12
 //@   loop 1 invariant forall i int :: {tokens[i]} 0 <= i && i < len(tokens) ==> tokens[i].tokenType == 5 || tokens[i].tokenType == 12
 //@   loop 1 invariant baseCol == tok.Pos.Column - 1 && baseLine == tok.Pos.Line - 1
-//@   loop 1 invariant forall i int :: {tokens[i]} 0 <= i && i < len(tokens) ==> tokens[i].line == baseLine && baseCol + 1 <= tokens[i].col && tokens[i].col + tokens[i].length <= baseCol + 1 + searchStart
+//@   loop 1 invariant 0 <= u16Pos && u16Pos <= searchStart
+//@   loop 1 invariant forall i int :: {tokens[i]} 0 <= i && i < len(tokens) ==> tokens[i].line == baseLine && baseCol + 1 <= tokens[i].col && tokens[i].col + tokens[i].length <= baseCol + 1 + u16Pos
 //@   loop 1 invariant forall i int :: {tokens[i]} 0 <= i && i < len(tokens) ==> tokens[i].length >= 0
 //@   loop 1 invariant forall i int, j int :: {tokens[i]; tokens[j]} 0 <= i && i < j && j < len(tokens) ==> tokens[i].col + tokens[i].length <= tokens[j].col && tokens[i].col <= tokens[j].col
 //@   loop 1 decreases len(parts) - rangeindex
